@@ -76,9 +76,44 @@ func c01Case(r *fw.Rand, index string) fw.Case {
 		}
 	}
 	crashes := 0
+	big := false
 	steps := 6 + r.Intn(16)
 	for i := 0; i < steps; i++ {
-		switch r.Intn(12) {
+		switch r.Intn(14) {
+		case 12:
+			// a snapshot in flight while acknowledged writes go on; now and then so much is
+			// written that the WAL rolls over to a new segment before the snapshot commits
+			ops = append(ops, "snaphold", "w "+batch())
+			if !big && r.Intn(2) == 0 {
+				big = true
+				ops = append(ops, "wbig", "w "+batch())
+			}
+			ops = append(ops, "snaprelease")
+			files++
+			if r.Intn(2) == 0 {
+				ops = append(ops, fmt.Sprintf("crash clean %d", r.Intn(100000)))
+				crashes++
+				observe()
+			}
+		case 13:
+			// two range deletes that share one bound, then a restart: the tombstones are
+			// re-applied from the file in one pass
+			m := c10Meas[r.Intn(len(c10Meas))]
+			los := []string{"-inf", fmt.Sprint(c10Base + 10000), fmt.Sprint(c10Base + 20000), fmt.Sprint(c10Base + 5000)}
+			his := []string{fmt.Sprint(c10Base + 12000), fmt.Sprint(c10Base + 25000), fmt.Sprint(c10Base + 31000), "+inf"}
+			a1, b1 := r.Intn(len(los)), r.Intn(len(his))
+			a2, b2 := a1, (b1+1+r.Intn(len(his)-1))%len(his) // same lower bound, different upper bounds
+			if r.Intn(2) == 0 {
+				a2, b2 = (a1+1+r.Intn(len(los)-1))%len(los), b1 // same upper bound
+			}
+			tg := func() string { return []string{"-", "host=a", "host=b"}[r.Intn(3)] }
+			if r.Intn(2) == 0 && files == 0 {
+				ops = append(ops, "snap")
+				files++
+			}
+			ops = append(ops, fmt.Sprintf("del %s %s %s %s", m, tg(), los[a1], his[b1]), fmt.Sprintf("del %s %s %s %s", m, tg(), los[a2], his[b2]))
+			ops = append(ops, "reopen")
+			observe()
 		case 0, 1, 2, 3:
 			ops = append(ops, "w "+batch())
 		case 4:
